@@ -63,6 +63,15 @@ Definition view_points (D : nat) (f : form) (M : mat) (ac : bool) (g : gridf) (A
   gen_pts D (cubeax ac) B (gN D g) (gS D g) (gC D g) (gD D g)
     (gen_forward D f M (gen_pts D A (cubeax ac) (gN D g) (gS D g) (gC D g) (gD D g) x)).
 
+(* points(...) / PointSetTransformer of ANY transform whose forward() is a map T of its own cube coordinates
+   (non-rigid models: T = x + interpolated field; composites: T = the generic loop) *)
+Definition view_points2_gen (D : nat) (T : vec -> vec) (ac : bool) (g : gridf)
+    (A : axes) (g1 : gridf) (B : axes) (g2 : gridf) (x : vec) : vec :=
+  gen_pts2 D (cubeax ac) B (gN D g) (gS D g) (gC D g) (gD D g) (gN D g2) (gS D g2) (gC D g2) (gD D g2)
+    (T (gen_pts2 D A (cubeax ac) (gN D g1) (gS D g1) (gC D g1) (gD D g1) (gN D g) (gS D g) (gC D g) (gD D g) x)).
+Definition world_map_gen (D : nat) (T : vec -> vec) (ac : bool) (g : gridf) (w : vec) : vec :=
+  g_to_world D (cubeax ac) g (T (g_from_world D (cubeax ac) g w)).
+
 (* ---------------------------------------------------------------- composites *)
 Definition member := (form * mat)%type.
 Definition m_apply (D : nat) (m : member) (x : vec) : vec := form_apply D (fst m) (snd m) x.
@@ -104,6 +113,29 @@ Definition ml_spec (x : vec) (ys : list vec) : vec :=
 Definition ml_spec_linear (D : nat) (ms : list member) (x : vec) : vec :=
   ml_spec x (map (fun m => m_apply D m x) ms).
 
+(* ---------------------------------------------------------------- composites, generic branch of forward() *)
+(* a member as forward() sees it: told by the flag whether the points are the undeformed lattice of its domain *)
+Definition fmember := bool -> vec -> vec.
+(* SequentialTransform.forward: for i, transform in enumerate(members): y = transform.forward(y, grid=grid and i == 0) *)
+Fixpoint seq_loop (i : nat) (ms : list fmember) (grid : bool) (y : vec) : vec :=
+  match ms with
+  | [] => y
+  | m :: r => seq_loop (S i) r grid (m (grid && Nat.eqb i 0) y)
+  end.
+Definition seq_forward (ms : list fmember) (grid : bool) (x : vec) : vec := seq_loop 0 ms grid x.
+(* the flags the loop hands to members 0 .. n-1 *)
+Definition loop_flags (n : nat) (grid : bool) : list bool := map (fun i => grid && Nat.eqb i 0) (seq 0 n).
+(* MultiLevelTransform.forward with the flag: y_i = member_i.forward(x, grid and i == 0) *)
+Definition ml_forward_flag (ms : list fmember) (grid : bool) (x : vec) : vec :=
+  ml_forward x (map (fun p => snd p (grid && Nat.eqb (fst p) 0) x) (combine (seq 0 (length ms)) ms)).
+(* specification: composition / sum of the members' POINT maps (flag false) *)
+Definition seq_point_map (ms : list fmember) (x : vec) : vec := fold_left (fun y m => m false y) ms x.
+Definition ml_point_map (ms : list fmember) (x : vec) : vec := ml_spec x (map (fun m => m false x) ms).
+(* observed flag table entry: (kinds of the members, flag given to the composite, flags the members received) *)
+Definition flags_ok (e : list bool * bool * list bool) : bool :=
+  let '(kinds, grid, seen) := e in
+  (Nat.eqb (length seen) (length kinds)) && forallb (fun p => Bool.eqb (fst p) (snd p)) (combine seen (loop_flags (length kinds) grid)).
+
 (* ---------------------------------------------------------------- non-rigid models: T := the interpolated field *)
 Variable floorK : K -> Z.
 (* warp_points: y = x + u(x), u sampled with grid_sample (border padding, the transform grid's flag) *)
@@ -123,6 +155,12 @@ Definition warp_points3 (ac : bool) (ux uy uz : list (list (list K))) (p : vec) 
    the field is RESIZED to the lattice size and added sample by sample *)
 Definition warp_grid1 (ac : bool) (u : list K) (xs : list K) : list K :=
   vadd xs (resize1 floorK ac (zlen xs) u).
+(* a dense-field member in 2-D as forward() applies it to the lattice point with index (jx, jy) of an mx x my lattice:
+   grid = true: the field RESIZED to the lattice shape and added sample by sample; grid = false: interpolated at the point *)
+Definition ddf_member2 (ac : bool) (ux uy : list (list K)) (mx my : Z) (jx jy : nat) : fmember :=
+  fun grid p =>
+    if grid then vadd p [nth jx (nth jy (resize2 floorK ac mx my ux) []) 0; nth jx (nth jy (resize2 floorK ac mx my uy) []) 0]
+    else warp_points2 ac ux uy p.
 (* lattice coordinates of a grid of m samples, flag ac (C01: Grid.coords) *)
 Definition lattice_coord (ac : bool) (m : Z) (j : Z) : K :=
   if ac then (1 + 1) * of_Z j / (of_Z m - 1) - 1 else ((1 + 1) * of_Z j + 1) / of_Z m - 1.
@@ -144,6 +182,15 @@ Definition warp_out2 (pad : padmode) (f : form) (ac : bool) (M : mat) (tg g src 
 Definition warp_out3 (pad : padmode) (f : form) (ac : bool) (M : mat) (tg g src : gridf) (img : list (list (list K))) (j : vec) : K :=
   match warp_coords 3 f ac M tg g src (target_coord 3 ac tg j) with
   | [x; y; z] => grid_sample3 floorK pad ac img x y z
+  | _ => 0
+  end.
+(* ImageTransformer with a composite whose forward() is the generic loop: pre-mapped target point -> members -> source cube *)
+Definition warp_seq_out2 (pad : padmode) (ac : bool) (ms : list fmember) (grid : bool) (tg g src : gridf) (img : list (list K)) (j : vec) : K :=
+  let x2 := gen_pts2 2 (cubeax ac) (cubeax ac) (gN 2 tg) (gS 2 tg) (gC 2 tg) (gD 2 tg) (gN 2 g) (gS 2 g) (gC 2 g) (gD 2 g)
+              (target_coord 2 ac tg j) in
+  match gen_pts2 2 (cubeax ac) (cubeax ac) (gN 2 g) (gS 2 g) (gC 2 g) (gD 2 g) (gN 2 src) (gS 2 src) (gC 2 src) (gD 2 src)
+          (seq_forward ms grid x2) with
+  | [x; y] => grid_sample2 floorK pad ac img x y
   | _ => 0
   end.
 (* "the input image evaluated at T(x) in world space": the continuous source index of the world point
